@@ -140,6 +140,40 @@ def main(argv=None):
     if c2.err is None and (c1.err is not None or c1.ode != c2.ode):
         rep.violation("a header-less expressions block placed directly after a headed one is read as part of that block",
                       {"kind": "direct", "text": t2, "permuted": t1, "error": c1.err}, finding_key="C10-headerless-block-absorbed")
+    # directed: a text that defines one name twice, differently, in two blocks of one component is not reorderable; the
+    # only order-independent outcome is the same verdict for every order of the two blocks
+    for i in range(4 if a.tier == "quick" else 60):
+        m0 = gen.model(n_comps=rng.choice([1, 2]), n_params=rng.choice([2, 3]), n_inters=rng.choice([2, 3, 4]), p_unused=0.0)
+        eb = [b for b in m0["blocks"] if b["kind"] == "expressions" and b["lines"]]
+        if not eb:
+            continue
+        b0 = rng.choice(eb)
+        ln = rng.choice(b0["lines"])
+        twin = {"kind": "expressions", "comps": list(b0.get("comps") or []),
+                "lines": [{"name": ln["name"], "expr": ("bin", "+", ln["expr"], ("bin", "*", ("num", "0"), ln["expr"])), "comment": None}]}
+        if not twin["comps"]:
+            continue    # two header-less blocks cannot be kept apart in the text
+        others = [b for b in m0["blocks"] if b is not b0]
+        decl = [b for b in others if b["kind"] != "expressions"]
+        ex = [b for b in others if b["kind"] == "expressions" and b.get("comps")]
+        hl = [b for b in others if b["kind"] == "expressions" and not b.get("comps")]
+        t1 = lang.render_model({"blocks": decl + hl + [b0] + ex + [twin], "shape": "dup", "unused": []}, rng)
+        t2 = lang.render_model({"blocks": decl + hl + [twin] + ex + [b0], "shape": "dup", "unused": []}, rng)
+        def verdict(t):
+            cc = pipeline.Case(drv, t)
+            if cc.err is not None:
+                return ("rejected", str(cc.err).split(":")[0]), cc
+            return ("accepted", impl.gen_python(cc.ode, schemes=["explicit_euler"])), cc
+        def dup_case():
+            v1, c1 = verdict(t1)
+            v2, c2 = verdict(t2)
+            rep.count("duplicate_in_two_blocks:" + v1[0])
+            if v1[0] != v2[0] or (v1[0] == "accepted" and (v1[1] != v2[1] or c1.ode != c2.ode)):
+                rep.violation(f"a text with two differing definitions of {ln['name']} in two blocks of one component is "
+                              f"{v1[0]} in one block order and {v2[0]}{' with different code' if v2[0] == v1[0] else ''} in the other",
+                              {"kind": "direct", "text": t1, "permuted": t2, "permutation": "two blocks defining one name"})
+        core.guarded(rep, t1, dup_case)
+        rep.case(key=t1, nontrivial=True)
     for i in range(n):
         got = family.new_case(drv, rng, gen, rep, n_comps=rng.choice([1, 2, 3, 3]), n_params=rng.choice([2, 3, 4]),
                               n_inters=rng.choice([2, 3, 4, 6]))
